@@ -994,9 +994,16 @@ func c01Hash(r *rand.Rand) string {
 }
 
 func c01GoodBid(r *rand.Rand) c01Bid {
+	// bundle sizes: mostly small; around 8 / 16 / 64 and a large one now and then (the engine bid, the
+	// commitment and the calldata all carry the whole list)
 	n := 1 + r.Intn(3)
-	if r.Intn(8) == 0 {
-		n = 6 + r.Intn(10)
+	switch x := r.Intn(120); {
+	case x < 36:
+		n = []int{2, 8, 9, 10, 17}[r.Intn(5)]
+	case x < 39:
+		n = 64
+	case x < 41:
+		n = 200
 	}
 	hs := make([]string, n)
 	for i := range hs {
